@@ -336,6 +336,8 @@ wrap_assign(PSET& pointset,
           full_range_bounds.insert(min_value <= y);
           full_range_bounds.insert(y <= max_value);
         }
+        // The same applies to the dimension being considered.
+        goto set_full_range;
       }
     }
 
